@@ -66,12 +66,21 @@ func ztCall(h http.Handler, method, path string, body any) (int, string) {
 var ztGGUF []byte
 
 func ztGGUFBlob() []byte {
-	if ztGGUF != nil {
-		return ztGGUF
+	if ztGGUF == nil {
+		ztGGUF = ztGGUFWith(nil)
 	}
-	f, _ := gos.CreateTemp("", "zt-gguf")
-	defer gos.Remove(f.Name())
-	err := ggml.WriteGGUF(f, ggml.KV{
+	return ztGGUF
+}
+
+var ztGGUFVariants = map[string][]byte{}
+
+// ztGGUFWith writes the harness's small model file with additional key/values.
+func ztGGUFWith(more ggml.KV) []byte {
+	key := fmt.Sprint(more)
+	if b, ok := ztGGUFVariants[key]; ok {
+		return b
+	}
+	kv := ggml.KV{
 		"general.architecture":          "llama",
 		"llama.block_count":             uint32(1),
 		"llama.context_length":          uint32(32),
@@ -81,13 +90,20 @@ func ztGGUFBlob() []byte {
 		"tokenizer.ggml.tokens":         []string{"a"},
 		"tokenizer.ggml.scores":         []float32{0},
 		"tokenizer.ggml.token_type":     []int32{0},
-	}, []ggml.Tensor{{Name: "blk.0.attn.weight", Kind: 0, Shape: []uint64{1, 1}, WriterTo: bytes.NewReader(make([]byte, 4))}})
+	}
+	for k, v := range more {
+		kv[k] = v
+	}
+	f, _ := gos.CreateTemp("", "zt-gguf")
+	defer gos.Remove(f.Name())
+	err := ggml.WriteGGUF(f, kv, []ggml.Tensor{{Name: "blk.0.attn.weight", Kind: 0, Shape: []uint64{1, 1}, WriterTo: bytes.NewReader(make([]byte, 4))}})
 	f.Close()
 	if err != nil {
 		panic(err)
 	}
-	ztGGUF, _ = gos.ReadFile(f.Name())
-	return ztGGUF
+	b, _ := gos.ReadFile(f.Name())
+	ztGGUFVariants[key] = b
+	return b
 }
 
 // ---- restart: what Serve does before it listens ---------------------------------------------
